@@ -381,9 +381,24 @@ def _hdf5(ctx):
         return ("<lambda>", ast.parse("lambda d: d[%r]" % (k_,), mode="eval").body, ev)
     tg = W.evaluator(models={"json.loads": lambda ev, c: _copy.deepcopy(doc), "elem.get_by_symbol": get_by_symbol, "operator.itemgetter": itemgetter})
     tg.funcs = dict(W.funcs, **h5funcs)
+    from .c12 import _module_constants
+    modstate = {k_: v_ for k_, v_ in _module_constants(ctx, H5).items() if isinstance(v_, (dict, list, set, int, float, str))}      # module-level state the getter may keep (a cache ...)
+    tg.module_env = dict(getattr(tg, "module_env", None) or {}, **modstate)
     reader = Obj(mode="r", _lenient=True, tables=Obj(NoSuchNodeError="NoSuchNodeError"), _get_node=lambda *a, **k: ["RAW"])
     try:
         back = tg.run_fn(gfn, self=reader)
+        # a second reader of the same stored document, in the same process
+        tg2 = W.evaluator(models=dict(tg.models))
+        tg2.funcs = dict(tg.funcs)
+        tg2.module_env = tg.module_env
+        back2 = tg2.run_fn(gfn, self=Obj(mode="r", _lenient=True, tables=Obj(NoSuchNodeError="NoSuchNodeError"), _get_node=lambda *a, **k: ["RAW"]))
+        if isinstance(back, Obj) and isinstance(back2, Obj):
+            def objs(t_):
+                return [t_] + list(getattr(t_, "_chains", [])) + list(getattr(t_, "_residues", [])) + list(getattr(t_, "_atoms", [])) + list(getattr(t_, "_bonds", []))
+            shared = [o_ for o_ in objs(back2) if any(o_ is x_ for x_ in objs(back))]
+            ctx.decide(not shared, "C04-R1", gfn, H5, gq, "two reads of the same stored topology give independent objects", "",
+                       "the second read returns %s of the first (%d shared objects): editing one loaded topology edits the other, and later loads of the untouched file return the edited one"
+                       % ("the very Topology object" if back2 is back else "parts", len(shared)))
     except Raised as e:
         ctx.violated("C04-R1", gfn, H5, gq, "the getter rebuilds a topology from what the setter wrote", "the getter raises %s on the setter's own document (a key it reads is not written)" % (e.exc or e))
         return
@@ -832,7 +847,19 @@ class _TopWorld:
         kw = {k.arg: ev.ex(k.value) for k in call.keywords}
         a1, a2 = args[0], args[1]
         return Obj(tag="bond", _isa=("Bond",), atom1=a1, atom2=a2, type=kw.get("type", args[2] if len(args) > 2 else None), order=kw.get("order", args[3] if len(args) > 3 else None),
-                   _iter=lambda: [a1, a2], _getitem=lambda s_, k: [a1, a2][k], _contains=lambda x_: x_ is a1 or x_ is a2)
+                   _iter=lambda: [a1, a2], _getitem=lambda s_, k: [a1, a2][k], _contains_ev=lambda ev_, x_: self.tuple_contains(ev_, x_, (a1, a2)))
+
+    def tuple_contains(self, ev, x, items):
+        """`x in (a1, a2)` as Python decides it: identity first, then x == a with the class's own __eq__ (evaluated from its source)"""
+        for a in items:
+            if x is a:
+                return True
+            eq = (getattr(x, "_methods", None) or {}).get("__eq__")
+            if eq is not None and isinstance(a, self.Obj):
+                r = self.TenSym(ev.globals_env(), funcs=self.funcs, parent=ev).run_fn(eq, self=x, other=a)
+                if ev.truth(r) if not isinstance(r, bool) else r:
+                    return True
+        return False
 
     def evaluator(self, env=None, models=None):
         Obj = self.Obj
